@@ -1,2 +1,4 @@
 import PyodaProofs.Basic
 import PyodaProofs.C03
+import PyodaProofs.C04
+import PyodaProofs.C05
